@@ -11,10 +11,14 @@
    accepts/rejects a size it should not. *)
 From IV Require Import Base.Word Model.RtpBuffer Model.PacketFactory Model.Responder Spec.C04Spec.
 
-Fixpoint find_idx_code {A} (f : A -> nat) (l : list A) (i : nat) : list (nat * nat) :=
+(* (index, failure code); printed as Z pairs so that the driver can parse them *)
+Fixpoint find_idx_code {A} (f : A -> nat) (l : list A) (i : Z) : list (Z * Z) :=
   match l with
   | [] => []
-  | x :: xs => match f x with O => find_idx_code f xs (S i) | c => (i, c) :: find_idx_code f xs (S i) end
+  | x :: xs => match f x with
+               | O => find_idx_code f xs (i + 1)
+               | c => (i, Z.of_nat c) :: find_idx_code f xs (i + 1)
+               end
   end.
 
 (* ---------- c04buf: RTPBuffer through its own API ---------- *)
@@ -60,7 +64,7 @@ Definition buf_spec_code (c : buf_case) : nat :=
   if negb (Bool.eqb (spec_valid_size size) created) then 5%nat
   else if created then buf_spec_run size ah_empty steps else 0%nat.
 
-Definition buf_spec_failures (cases : list buf_case) : list (nat * nat) :=
+Definition buf_spec_failures (cases : list buf_case) : list (Z * Z) :=
   find_idx_code buf_spec_code cases 0.
 
 (* ---------- c04pf: PacketFactoryCopy.NewPacket ---------- *)
@@ -90,7 +94,7 @@ Definition pf_call_code (io : pf_in * pf_out) : nat :=
 Fixpoint first_code {A} (f : A -> nat) (l : list A) : nat :=
   match l with [] => 0%nat | x :: r => match f x with O => first_code f r | c => c end end.
 
-Definition pf_spec_failures (cases : list pf_case) : list (nat * nat) :=
+Definition pf_spec_failures (cases : list pf_case) : list (Z * Z) :=
   find_idx_code (fun c : pf_case => first_code pf_call_code (snd c)) cases 0.
 
 (* ---------- c04resp: the responder interceptor through its public API ---------- *)
@@ -197,5 +201,5 @@ Fixpoint resp_spec_run (size : Z) (copy : bool) (s : sstate) (steps : list (op *
 Definition resp_spec_code (c : resp_case) : nat :=
   let '(size, copy, _, steps) := c in resp_spec_run size copy (mkSS [] []) steps.
 
-Definition resp_spec_failures (cases : list resp_case) : list (nat * nat) :=
+Definition resp_spec_failures (cases : list resp_case) : list (Z * Z) :=
   find_idx_code resp_spec_code cases 0.
